@@ -9,14 +9,19 @@ for log in sys.argv[1:]:
     for line in open(log, errors="replace"):
         m = re.match(r"######## (\S+)", line)
         if m:
-            cur = m.group(1); rows[cur] = {"demo_without": None, "demo_with": None, "suite": None, "checks": {}, "stage": None}; stage = None; continue
+            cur = m.group(1)
+            if cur not in rows: rows[cur] = {"demo_without": None, "demo_with": None, "suite": None, "checks": {}, "history": []}
+            stage = None; continue
         if cur is None: continue
         r = rows[cur]
         if line.startswith("--- demo WITHOUT"): stage = "without"; continue
         if line.startswith("--- demo WITH change"): stage = "with"; continue
         if line.startswith("--- suite WITH"): stage = "suite"; continue
         m = re.match(r"=== (C\d+)", line)
-        if m: stage = ("check", m.group(1)); r["checks"][m.group(1)] = {"verdict": "no VIOLATION (missed)", "detail": ""}; continue
+        if m:
+            stage = ("check", m.group(1))
+            if m.group(1) in r["checks"]: r["history"].append({m.group(1): r["checks"][m.group(1)]["verdict"] + " [before the check was strengthened]"})
+            r["checks"][m.group(1)] = {"verdict": "no VIOLATION (missed)", "detail": ""}; continue
         if stage == "without" and line.startswith("test result:"): r["demo_without"] = "ok" if line.startswith("test result: ok") else "FAILED"
         if stage == "with" and line.startswith("test result:"): r["demo_with"] = "ok" if line.startswith("test result: ok") else "FAILED"
         if stage == "suite" and line.startswith("test result:"):
@@ -45,10 +50,11 @@ for mid, r in rows.items():
         try: meta = json.load(open(os.path.join(src, "meta.json")))
         except Exception: meta = {}
     meta["verified_by_me"] = {"demo_without_change": r["demo_without"], "demo_with_change": r["demo_with"], "suite_with_change": r["suite"],
-                              "checks": r["checks"], "commands": [f"tools/mutverify.sh /tmp/mut/{mid} " + " ".join(r["checks"].keys())]}
+                              "checks": r["checks"], "earlier_runs": r["history"], "commands": [f"tools/mutverify.sh /tmp/mut/{mid} " + " ".join(r["checks"].keys())]}
     if os.path.isdir(dst): json.dump(meta, open(os.path.join(dst, "meta.json"), "w"), indent=1)
     breaks = (meta.get("summary") or meta.get("what_it_breaks") or "")[:140].replace("|", "/").replace("\n", " ")
     ch = "; ".join(f"{p}: {c['verdict']}" for p, c in r["checks"].items())
+    if r["history"]: ch += " — earlier: " + "; ".join(f"{k}: {v}" for h in r["history"] for k, v in h.items())
     out.append(f"| {sid} | {breaks} | {r['demo_without']} → {r['demo_with']} | {ch} |")
 os.makedirs(os.path.join(V, "seeded"), exist_ok=True)
 open(os.path.join(V, "seeded", "RESULTS.md"), "w").write("\n".join(out) + "\n")
